@@ -538,10 +538,10 @@ func Compare(want, got Den) []Diff {
 	for k := range want.Cues {
 		w, g := want.Cues[k], got.Cues[k]
 		id := strconv.Itoa(k)
-		if g.Begin.Den != 1 || !w.Begin.Accepts(g.Begin.Num) {
+		if !(w.Begin == g.Begin || (g.Begin.Den == 1 && w.Begin.Accepts(g.Begin.Num))) {
 			out = append(out, Diff{"cue.begin", id, w.Begin.String(), g.Begin.String()})
 		}
-		if g.End.Den != 1 || !w.End.Accepts(g.End.Num) {
+		if !(w.End == g.End || (g.End.Den == 1 && w.End.Accepts(g.End.Num))) {
 			out = append(out, Diff{"cue.end", id, w.End.String(), g.End.String()})
 		}
 		if w.Style != g.Style {
@@ -1148,7 +1148,9 @@ func styleAttrsOf(n *node, ns nsSet) []Attr {
 func deindent(s string) string {
 	parts := strings.Split(s, "\n")
 	for i := range parts {
-		parts[i] = strings.TrimLeftFunc(parts[i], isXMLSpace)
+		if i > 0 { // white space after a raw newline is indentation
+			parts[i] = strings.TrimLeftFunc(parts[i], isXMLSpace)
+		}
 	}
 	return strings.Join(parts, "")
 }
